@@ -943,7 +943,8 @@ class ExcelCompiler:
                         # INDIRECT() can produce addresses we don't already have loaded
                         self._gen_graph(ref_addr)
 
-                    value = self.cell_map[ref_addr].value
+                    # calculate the cell the reference points to
+                    value = self._evaluate(ref_addr)
                 else:
                     self.log.info(
                         f"Cell {cell.address} evaluated to '{value}' ({type(value).__name__})")
